@@ -426,6 +426,9 @@ class Gen:
             fn = r.choice(fam["binary"])
             if fn == "truediv" and self.may_be_zero(b):
                 fn = "mul"  # x/0 and 0/0 are arithmetic edges, not rewrite questions
+            sa, sb = self.types[a].output.shape, self.types[b].output.shape
+            if self.family_name in ("ring", "tropical") and len(sa) == 1 and sa == sb and r.random() < 0.4:
+                fn = "matmul"  # inner product of two vector-valued terms
             return self.emit({"op": "binary", "fn": fn, "a": a, "b": b})
         if kind == "pyop":
             if self.family_name == "bool":
@@ -844,7 +847,7 @@ def gen_gauss(r):
         elif c < 0.86 and int_in:
             n = r.choice(int_in)
             out = g.emit({"op": "reduce", "fn": r.choice(["add", "add", "logaddexp"]), "a": a, "vars": [[n, ta.inputs[n].size]]})
-        elif c < 0.95 and real_in:
+        elif c < 0.93 and real_in:
             n = r.choice(real_in)
             shape = list(ta.inputs[n].shape)
             k2 = r.random()
@@ -852,6 +855,8 @@ def gen_gauss(r):
                 integrand = g.emit({"op": "var", "name": n, "domain": ["real"]})  # a bare Variable
             elif k2 < 0.45:
                 integrand = r.choice([v for v in vals if g.types[v].output == Real] or [a])  # e.g. another Gaussian
+                if r.random() < 0.35 and not has_delta(integrand):
+                    integrand = g.emit({"op": "unary", "fn": "neg", "a": integrand})
             else:
                 integrand = g.emit({"op": "affine", "name": n, "domain": ["reals", shape] if shape else ["real"], "scale": round(r.uniform(0.5, 2.0), 2), "shift": round(r.uniform(-1, 1), 2)})
             if integrand and shape and g.types[integrand].output != Real:
@@ -878,7 +883,20 @@ def gen_gauss(r):
             if pt:
                 d = g.emit({"op": "delta", "name": n, "point": pt})
                 if d:
-                    out = g.emit({"op": "binary", "fn": "add", "a": d, "b": a})
+                    if r.random() < 0.5:
+                        out = g.emit({"op": "binary", "fn": "add", "a": d, "b": a})
+                    else:
+                        out = g.emit({"op": "binary", "fn": "add", "a": a, "b": d})
+                    if r.random() < 0.3:
+                        # the Delta itself as a measure: Integrate(Delta, integrand, {n})
+                        ig = g.emit({"op": "affine", "name": n, "domain": ["reals", list(ta.inputs[n].shape)] if list(ta.inputs[n].shape) else ["real"], "scale": round(r.uniform(0.5, 2.0), 2), "shift": round(r.uniform(-1, 1), 2)})
+                        if ig and list(ta.inputs[n].shape):
+                            ig = g.emit({"op": "evreduce", "fn": "sum", "a": ig, "axis": None})
+                        for integrand in (ig, a):
+                            if integrand:
+                                extra = g.emit({"op": "integrate", "a": d, "b": integrand, "vars": [n]})
+                                if extra:
+                                    vals.append(extra)
         if out:
             vals.append(out)
     return g.program, g.family_name
@@ -1041,5 +1059,63 @@ def corpus(r):
                 for k in range(0, len(batch) + 1):
                     for sub in itertools.combinations([b for b, _ in batch], k):
                         g.emit({"op": "integrate", "a": leaf, "b": integrand, "vars": [n] + list(sub)})
+        out.append((g.program, "log"))
+    # 9. Lambda over expressions that stay symbolic under eager (a bare variable, an index arithmetic
+    #    expression), then indexed by an integer, a variable, an index tensor and slices
+    for _ in range(2):
+        g = Gen(r, family="ring", max_event=0, real_vars=False)
+        n = r.choice(NAMES)
+        size = g.sizes[n]
+        v = g.emit({"op": "var", "name": n, "domain": ["bint", size]})
+        t = T(g, [n] + r.sample([m for m in NAMES if m != n], r.choice([0, 1])))
+        exprs = [v]
+        if v and t:
+            exprs.append(g.emit({"op": "subs", "a": t, "subs": [[n, ["val", v]]]}))
+        for ex in exprs:
+            if not ex:
+                continue
+            lam = g.emit({"op": "lambda", "a": ex, "var": [n, size]})
+            if not lam:
+                continue
+            g.emit({"op": "getitem", "a": lam, "index": ["int", r.randrange(size)]})
+            other = r.choice([m for m in NAMES if m != n])
+            w = g.emit({"op": "var", "name": other, "domain": ["bint", size]}) if g.sizes[other] == size else None
+            if w:
+                g.emit({"op": "getitem", "a": lam, "index": ["val", w]})
+            idx = g._index_value(size)
+            if idx:
+                g.emit({"op": "getitem", "a": lam, "index": ["val", idx]})
+            if size >= 2:
+                g.emit({"op": "getslice", "a": lam, "start": r.randrange(size - 1), "stop": size, "step": r.choice([None, 2])})
+                g.emit({"op": "evreduce", "fn": "sum", "a": lam, "axis": None})
+        out.append((g.program, "ring"))
+    # 10. Independent over a Delta, a Delta + weights + Gaussian joint, a Gaussian, and a term without the diagonal variable
+    for kind in ("delta", "joint", "gauss", "trivial"):
+        g = Gen(r, family="log", max_event=0, real_vars=False)
+        b = r.choice(NAMES[:3])
+        size = g.sizes[b]
+        diag = "x__" + b
+        pt = g.emit({"op": "tensor", "inputs": [[b, size]], "shape": [size], "dtype": "float", "data": g.data("real", size)})
+        w = g.emit({"op": "tensor", "inputs": [[b, size]], "shape": [size], "dtype": "float", "data": g.data("real", size)})
+        term = None
+        if kind in ("delta", "joint") and pt:
+            term = g.emit({"op": "delta", "name": diag, "point": pt, "ld": w if r.random() < 0.5 else None})
+            if kind == "joint" and term and w:
+                gy = g.emit({"op": "gaussian", "batch": [[b, size]], "reals": [["y", []]], "mats": [round(r.gauss(0, 1), 3) for _ in range(size)], "locs": [round(r.gauss(0, 1), 3) for _ in range(size)]})
+                term = g.emit({"op": "binary", "fn": "add", "a": term, "b": w})
+                if term and gy and r.random() < 0.7:
+                    term = g.emit({"op": "binary", "fn": "add", "a": term, "b": gy})
+        elif kind == "gauss":
+            term = g.emit({"op": "gaussian", "batch": [[b, size]], "reals": [[diag, []]], "mats": [round(r.gauss(0, 1), 3) for _ in range(size)], "locs": [round(r.gauss(0, 1), 3) for _ in range(size)]})
+        elif kind == "trivial":
+            term = w
+        if term:
+            ind = g.emit({"op": "independent", "a": term, "reals_var": "x", "bint_var": b, "diag_var": diag})
+            if ind and kind != "trivial":
+                val = g.emit({"op": "tensor", "inputs": [], "shape": [size], "dtype": "float", "data": g.data("real", size)})
+                if val:
+                    g.emit({"op": "subs", "a": ind, "subs": [["x", ["val", val]]]})
+                if kind in ("delta", "joint"):
+                    g.emit({"op": "reduce_real", "fn": "logaddexp", "a": ind, "vars": ["x"]})
         out.append((g.program, "log"))
     return [(p, f) for p, f in out if len(p) >= 2]
